@@ -25,6 +25,11 @@ MODES = ["yield", "continue", "raise"]
 def gen_case(rng):
     nfields = rng.randint(1, 4)
     alphabet = rng.choice([["a", "b"], ["a", "b", "c"], ["x", "y"], ["1", "2", "3"]])
+    # free text as key: values that hold the item delimiter or a line break, so that ("a,", "b") and ("a", ",b") are two
+    # keys and a value is what stands in the cell, not what a joined text of the row looks like
+    free_text = rng.random() < 0.25
+    if free_text:
+        alphabet = rng.choice([["a", "a,", ",b", "b"], ["a", "a\nb", "b"], ["x", "x, y", "y", ", "], ["1", "1\n", "1,", ",1"]])
     fields = []
     may_be_empty = []
     numeric = rng.randrange(nfields) if rng.random() < 0.3 else None
@@ -41,6 +46,9 @@ def gen_case(rng):
         rule = ", ".join(alphabet)
         empty = rng.random() < 0.35
         may_be_empty.append(empty)
+        if free_text:
+            fields.append({"name": "k%d" % i, "type": "Text", "empty": empty, "length": "", "rule": ""})
+            continue
         fields.append({"name": "k%d" % i, "type": "Choice", "empty": empty, "length": "", "rule": rule})
     checks = []
     nk = rng.randint(1, min(3, nfields))
@@ -105,12 +113,54 @@ def readers_up_front(model, rows):
     return cid, {mode: validio.Reader(cid, io.StringIO(storage.delimited_text(rows), newline=""), on_error=mode) for mode in MODES}
 
 
-def check_case(ctx, model, rows, mode, up_front=None, through_rows=False, read_twice=False):
+def write_with_writer(cid, rows):
+    """The rows handed to a validating Writer one by one: what it accepted, what it rejected, the verdict of close()."""
+    from cutplace import errors, validio
+
+    obs = gen.Observation()
+    writer = validio.Writer(cid, io.StringIO(newline=""))
+    try:
+        for row in rows:
+            try:
+                writer.write_row(row)
+                obs.items.append(("row", row))
+            except errors.DataError as error:
+                obs.items.append(("error", error, gen.snapshot(error)))
+        obs.completed = True
+    finally:
+        try:
+            writer.close()
+        except errors.CutplaceError as error:
+            obs.end_error = error
+    return obs
+
+
+def as_written(expected):
+    """A Writer numbers the rows of its output: a rejected row is not written and the next row takes its number."""
+    if expected is None:
+        return None
+    mapping, items, written = {}, [], 0
+    for old, item in enumerate(expected["items"], 1):
+        mapping[old] = written + 1
+        if item[0] == "row":
+            items.append(item)
+            written += 1
+        else:
+            verdict = item[2]
+            if verdict[1] == "check":
+                verdict = tuple(verdict[:4]) + ((verdict[4][0], mapping[verdict[4][1]]),)
+            items.append(("error", mapping[old], verdict))
+    return dict(expected, items=items)
+
+
+def check_case(ctx, model, rows, mode, up_front=None, through_rows=False, read_twice=False, through_writer=False):
     from cutplace import errors
 
+    through_writer = through_writer and mode == "yield" and up_front is None
     through_rows = through_rows and mode == "raise" and up_front is None
-    read_twice = read_twice and not through_rows and up_front is None
-    case = {"cid": model.to_json(), "rows": rows, "mode": mode, "readers_created_up_front": up_front is not None, "through_cutplace_rows": through_rows, "read_twice": read_twice}
+    read_twice = read_twice and not through_rows and up_front is None and not through_writer
+    case = {"cid": model.to_json(), "rows": rows, "mode": mode, "readers_created_up_front": up_front is not None, "through_cutplace_rows": through_rows, "read_twice": read_twice,
+            "through_writer": through_writer}
     expected = RM.expected_run(model, rows)
     strict = False
     if expected is None:
@@ -122,6 +172,8 @@ def check_case(ctx, model, rows, mode, up_front=None, through_rows=False, read_t
         if expected is None:
             ctx.unjudged("row the field model does not judge")
             return
+    if through_writer:
+        expected = as_written(expected)
     aborted = RM.expected_run(model, rows, rollback=strict, stop_at_first_rejection=True)
     expected["end_after_abort"] = aborted["state"].end_verdict() if aborted is not None else None
     try:
@@ -134,7 +186,11 @@ def check_case(ctx, model, rows, mode, up_front=None, through_rows=False, read_t
     try:
         if up_front is not None:
             ctx.count("runs.reader-created-before-other-runs-on-the-cid")
-        if through_rows:
+        if through_writer:
+            # the same rows handed to a validating Writer: the same rows are rejected, located at the same rows
+            obs = write_with_writer(cid, rows)
+            ctx.count("runs.through-a-validating-writer")
+        elif through_rows:
             # cutplace.rows() closes its reader itself: the error that ends the iteration is the row's error, or - when
             # no row was rejected - the end-of-data verdict
             obs = gen.read_with_rows(cid, source, mode=mode)
@@ -179,6 +235,8 @@ def check_case(ctx, model, rows, mode, up_front=None, through_rows=False, read_t
     if first.violations and strict:
         second = Collector(ctx, False)
         sticky = RM.expected_run(model, rows, sticky=True)
+        if through_writer:
+            sticky = as_written(sticky)
         sticky_aborted = RM.expected_run(model, rows, sticky=True, stop_at_first_rejection=True)
         sticky["end_after_abort"] = sticky_aborted["state"].end_verdict()
         compare(second, errors, case, model, obs, sticky, mode, skip_end)
@@ -277,7 +335,7 @@ def run(ctx):
             except Exception:
                 up_front = None  # a refused CID is reported by check_case
         for mode in MODES:
-            check_case(ctx, model, rows, mode, up_front, through_rows=(i % 2 == 1), read_twice=(i % 6 == 2))
+            check_case(ctx, model, rows, mode, up_front, through_rows=(i % 2 == 1), read_twice=(i % 6 == 2), through_writer=(i % 6 == 4))
     if ctx.tier == "thorough":
         kinds = [["a", "a"], ["a", "b"], ["b", "a"], ["b", "b"], ["a", "BAD"]]
         fields = [{"name": "k0", "type": "Choice", "empty": False, "length": "", "rule": "a, b"},
@@ -306,4 +364,4 @@ def replay(ctx, case):
         for mode in MODES:
             check_case(ctx, model, case["rows"], mode, up_front)
         return
-    check_case(ctx, model, case["rows"], case["mode"], through_rows=case.get("through_cutplace_rows", False), read_twice=case.get("read_twice", False))
+    check_case(ctx, model, case["rows"], case["mode"], through_rows=case.get("through_cutplace_rows", False), read_twice=case.get("read_twice", False), through_writer=case.get("through_writer", False))
